@@ -144,6 +144,11 @@ func c13Variants(c *Ctx, iv interface{}, t reflect.Type) {
 		e2 := stdjson.Unmarshal(u, &b)
 		ok := up == "" && uerr == nil && e1 == nil && e2 == nil && reflect.DeepEqual(a, b) && len(u) == len(base)
 		c.Oracle("unorderedmap", in, fmt.Sprintf("%s err=%s panic=%s", trunc(u), errT(uerr), up), trunc(base), ok, cls)
+		// UnorderedMap with indentation: the same layout up to member order
+		gi0, _, _ := safeMarshal(func() ([]byte, error) { return json.MarshalIndent(iv, "", "  ") })
+		ui, uierr, uip := safeMarshal(func() ([]byte, error) { return json.MarshalIndentWithOption(iv, "", "  ", json.UnorderedMap()) })
+		ok = uip == "" && uierr == nil && len(ui) == len(gi0) && c13SortedLines(ui) == c13SortedLines(gi0)
+		c.Oracle("unorderedmap-indent", in, fmt.Sprintf("%s err=%s panic=%s", trunc(ui), errT(uierr), uip), trunc(gi0)+" err=<nil>", ok, cls)
 		// DisableHTMLEscape: only the spelling of < > & changes
 		h, herr, hp := safeMarshal(func() ([]byte, error) { return json.MarshalWithOption(iv, json.DisableHTMLEscape()) })
 		var hv interface{}
@@ -168,6 +173,16 @@ func runC13(c *Ctx) {
 	ntypes := 1500
 	if c.Thorough() {
 		ntypes = 30000
+	}
+	if !c.IsWorker() {
+		FieldMatrix(func(t reflect.Type, v reflect.Value) {
+			iv := v.Interface()
+			if strings.HasPrefix(c01ClassOf(iv, nil, nil, nil, nil), "C08-") {
+				return
+			}
+			encOps(c, iv, false)
+			c13Variants(c, iv, t)
+		})
 	}
 	c.RunCases("spec", ntypes, func(c *Ctx, k int, rng *rand.Rand) {
 		g := &Gen{R: rng}
@@ -231,4 +246,15 @@ func c13HasQuotedString(v reflect.Value, depth int) bool {
 		}
 	}
 	return false
+}
+
+// c13SortedLines: the lines of an indented document as a multiset (commas dropped): two layouts of the
+// same document that differ only in the order of map members agree on it
+func c13SortedLines(b []byte) string {
+	lines := strings.Split(string(b), "\n")
+	for i := range lines {
+		lines[i] = strings.TrimSuffix(lines[i], ",")
+	}
+	sortStrings(lines)
+	return strings.Join(lines, "\n")
 }
